@@ -470,6 +470,16 @@ theorem splitHeaderParams_pos : ∀ (cmds : CmdList) (q : Nat),
       simp only [Registry.splitHeaderParams] at h
       simp only [posCmds, List.mem_append]
       exact Or.inr (splitHeaderParams_pos rest q h)
+    | rawText p txt =>
+      simp only [Registry.splitHeaderParams] at h
+      split at h
+      · -- a blank: either it stays (no header param follows) or the result is that of the rest
+        split at h
+        · exact h
+        · rename_i ps r _ heq
+          simp only [posCmds, List.mem_append]
+          exact Or.inr (splitHeaderParams_pos rest q (by rw [heq]; exact h))
+      · exact h
     | _ => simpa [Registry.splitHeaderParams] using h
 
 /-- `Registry.Add`'s template loop registers only templates with `posOk` when the file's template
